@@ -217,3 +217,6 @@ func verifEffectFailed(i int) bool { return false }
 func specIsGoReserved(s string) bool {
 	return gotoken.IsKeyword(s) || types.Universe.Lookup(s) != nil
 }
+
+// specQuote: the import path as a Go string literal (strconv.Quote).
+func specQuote(s string) string { return strconv.Quote(s) }
